@@ -26,6 +26,7 @@ RULE += (" Also: after a tool was closed early the caller's synchronous one-shot
 RULE += (' Also: chain / chain.from_iterable ask a re-iterable argument for its iterator no earlier than the counterpart (once the previous argument is used up).')
 RULE += (' Also: inputs in which every occurrence of a key is the very same object.')
 RULE += (' Also: zip(strict=<true object that is not True>) is strict.')
+RULE += (' Also: sources that take their item when __anext__ is called (eager start) in every slot.')
 ASSUMPTIONS = ["stdlib 3.12 is the reference; events compared are exactly pulls, end checks, calls, yields",
                "generator-flavoured sources are compared with generator twins (a pull after exhaustion is invisible there)",
                "accumulate([]) without initial: only the pull/end events before the documented TypeError are compared"]
@@ -33,7 +34,10 @@ EXHAUSTIVE_SUBSPACES = 'the enumerated spaces of C01 with instrumented class-bas
 EXHAUSTIVE = {"quick": False, "thorough": False}
 
 N_RANDOM = {"quick": 150000, "thorough": 6000000}
-FLAVS = ["async_class", "async_class", "async_gen", "sync_iter", "sync_gen", "getitem_seq", "async_class_bare", "async_iterable", "sync_iterable"]
+FLAVS = ["async_class", "async_class", "async_gen", "sync_iter", "sync_gen", "getitem_seq", "async_class_bare", "async_iterable", "sync_iterable",
+         # a source whose __anext__ takes its item when it is CALLED (a future-style channel): a request made and not yet
+         # awaited has consumed already
+         "async_class_eagerstart"]
 FNFL = ["def", "async_def", "callobj"]
 
 
